@@ -351,7 +351,75 @@ def build(u):
     if (not re.search(r"#\[derive\([^)]*\bPartialEq\b", vt) or not re.search(r'cfg_attr\(feature = "hashable-value", derive\(Hash, Eq\)\)', vt)
             or re.search(r"impl\s+(?:PartialEq|Hash|std::hash::Hash)\s+for\s+ValueTuple\b", src)):
         u.stubbed["ValueTuple: derived PartialEq / Eq / Hash"] = {"reason": "ValueTuple's PartialEq / Hash are not (all) derived any more: a hand-written impl is not under contract", "props": list(P18), "fname": "ValueTuple"}
+    value_tuples(u, src)
     u.emit("} // verus!\nfn main() {}\n")
+
+
+def value_tuples(u, src):
+    """C12 / C01: value tuples keep their arity and order.  IntoValueTuple for a single value, pairs, triples (hand-written impls) and for
+    tuples of 4..12 components (macro impl_into_value_tuple!, expanded mechanically once per invocation found in /repo: R-macro with one
+    `$( .. ),+` repetition over the `idx:T` pairs): the k-th value of the row is the k-th component, converted.  The expected row is written
+    from the ARITY alone (`self.0 .. self.(n-1)`), not from the invocation's index list."""
+    PT = ["C12", "C01"]
+    u.type_item(F, "enum", "ValueTuple", props=PT, rules=[r_path])
+    u.spec("""// Into<Value> of a component (R-into): a function of it
+pub trait VIntoValue: Sized { spec fn iv(self) -> Value; fn into(self) -> (r: Value) ensures r == self.iv(); }
+pub trait IntoValueTuple: Sized { spec fn vt_ok(self, r: ValueTuple) -> bool; fn into_value_tuple(self) -> (r: ValueTuple) ensures self.vt_ok(r); }
+// the row a tuple stands for: its components in written order (ValueTuple::Many compares by its list of values)
+pub open spec fn is_row(r: ValueTuple, vals: Seq<Value>) -> bool { r is Many && r->Many_0@ =~= vals }
+""", "value::value-tuple-traits", props=PT)
+    r_iv = make_r_sub("R-into", r"\bInto<Value>", "VIntoValue", min_count=0)
+    hand = [("impl IntoValueTuple for ValueTuple", "r == self", None),
+            ("impl<V> IntoValueTuple for V where V: Into<Value>,", "r == ValueTuple::One(self.iv())", None),
+            ("impl<V, W> IntoValueTuple for (V, W) where V: Into<Value>, W: Into<Value>,", "r == ValueTuple::Two(self.0.iv(), self.1.iv())", None),
+            ("impl<U, V, W> IntoValueTuple for (U, V, W) where U: Into<Value>, V: Into<Value>, W: Into<Value>,", "r == ValueTuple::Three(self.0.iv(), self.1.iv(), self.2.iv())", None)]
+    for hdr, sp, _ in hand:
+        u.emit("%s {\n    // the components, in written order\n    open spec fn vt_ok(self, r: ValueTuple) -> bool { %s }\n" % (hdr.replace("Into<Value>", "VIntoValue"), sp), kind="spec", key="value::%s" % hdr, props=PT)
+        u.fn(F, hdr, "into_value_tuple", props=PT, key="%s::into_value_tuple" % hdr, vpath="%s::into_value_tuple" % re.sub(r"impl(<[^>]*>)? ", "", hdr), no_canary=True, rules=[r_iv])
+        u.emit("}\n")
+    # the macro-generated impls for 4..12 components
+    params, body = None, None
+    m = re.search(r"macro_rules!\s+impl_into_value_tuple\s*\{", src)
+    if not m:
+        raise rl.LostAnchor("macro_rules! impl_into_value_tuple not found")
+    toks = rl.code_toks(rl.lex(src[m.end() - 1:]))
+    mtext = src[m.end():m.end() - 1 + toks[rl.match_close(toks, 0)].start]
+    if rl.norm_ws(mtext.split("=>")[0]) != "( $($idx:tt : $T:ident),+ $(,)? )":
+        raise rl.Unsupported("impl_into_value_tuple!: the macro pattern is no longer `$($idx:tt : $T:ident),+`")
+    mb = mtext[mtext.index("=>") + 2:].strip()
+    mb = mb[1:mb.rindex("}")]          # the transcriber's body
+    for line, args in invocations(src, "impl_into_value_tuple"):
+        pairs = []
+        for a in args:
+            pm = re.match(r"^(\d+)\s*:\s*([A-Z][A-Za-z0-9]*)$", a.strip())
+            if not pm:
+                raise rl.Unsupported("impl_into_value_tuple!(%s): argument `%s`" % (", ".join(args), a))
+            pairs.append((pm.group(1), pm.group(2)))
+        n = len(pairs)
+        # R-macro: expand the three repetitions of the transcriber
+        text = mb
+        text = text.replace("$($T),+", ", ".join(t for _, t in pairs)).replace("$($T: Into<Value>),+", ", ".join("%s: Into<Value>" % t for _, t in pairs))
+        text = text.replace("$(self.$idx.into()),+", ", ".join("self.%s.into()" % i for i, _ in pairs))
+        if "$" in text:
+            raise rl.Unsupported("impl_into_value_tuple!: unexpanded macro variable in the transcriber")
+        vsrc = "src/value.rs#impl_into_value_tuple!%d" % n
+        hdr = rl.norm_ws(text[:text.index("{")])
+        fn_m = re.search(r"fn into_value_tuple\(self\) -> ValueTuple \{", text)
+        if not fn_m:
+            raise rl.LostAnchor("impl_into_value_tuple!: fn into_value_tuple not found in the transcriber")
+        ft = rl.code_toks(rl.lex(text[fn_m.end() - 1:]))
+        fbody = text[fn_m.end() - 1: fn_m.end() - 1 + ft[rl.match_close(ft, 0)].end]
+        ctx = Ctx(u, "impl_into_value_tuple!(%d)" % n)
+        ctx.app("R-macro", "impl_into_value_tuple!(%s) at line %d" % (", ".join("%s:%s" % p for p in pairs), line), "the impl for a tuple of %d components" % n)
+        spec_vals = ", ".join("self.%d.iv()" % k for k in range(n))
+        import hashlib
+        meta = {"kind": "code", "key": "impl_into_value_tuple!(%d)" % n, "props": PT, "src": F, "src_line": line, "gid": 300000 + n, "fname": "into_value_tuple", "canary_ok": False}
+        u.emit("%s {\n    // a row of %d values: component k at position k (written from the arity alone)\n    open spec fn vt_ok(self, r: ValueTuple) -> bool { is_row(r, seq![%s]) }\n"
+               % (hdr.replace("Into<Value>", "VIntoValue"), n, spec_vals), kind="spec", key="value::impl_into_value_tuple!(%d)" % n, props=PT)
+        u.chunks.append(("    fn into_value_tuple(self) -> (r: ValueTuple)\n", dict(meta, kind="header")))
+        u.chunks.append(("    " + fbody + "\n}\n", dict(meta)))
+        u.functions.append({"item": meta["key"], "file": F, "line": line, "vpath": "into_value_tuple", "sha256": hashlib.sha256(text.encode()).hexdigest(), "rules": ctx.apps, "kind": "fn",
+                            "has_contract": True, "props": PT, "no_canary": True})
 
 
 def r_payload_any(text, ctx):
